@@ -62,7 +62,14 @@ CLAIMED = {
         "text": "Decides three structural clauses over all handler paths: (1) every handler that replaces or removes document state publishes for the same URL afterwards on every path, removal handlers publish an empty list, and publish_diagnostics always recomputes from doc_state under the lock; (2) only did_save (and the not-open fallback) may refresh from disk, every other refresh uses the buffer the client sent (three violations found and repaired); (3) ordering discipline: a store is ordered like its request only if no await point precedes the doc_state lock or the store is version-guarded — violated today by update_document and recorded as a known finding with the concrete two-didChange history.",
         "note": "Assumes tower-lsp 0.20's buffer_unordered(4) arrival-order polling and tokio Mutex FIFO fairness. Not decided: equality of the published diagnostics with those of the newest text (needs execution).",
     },
+    "C05": {
+        "level": "other",
+        "ref": "DESIGN.md section 3, C05",
+        "technique": "hidden-state census: write-sets on self of all 28 Linter::lint impls (effects), interior-mutability walk over the type graphs of all Pattern/PatternLinter implementors and of every static, cache-key provenance (characters, tokenisation, config hash, symmetric re-basing), classification of every iteration over randomly seeded hash containers with a sort-key totality rule for the word-map consumers",
+        "text": "Decides the absence of hidden state structurally: no rule writes a field of self outside the two registered memos and the delegation containers; Pattern/PatternLinter structs and Document have no interior mutability; every static is write-once-immutable or a registered scratch/memo whose justification is checked; the chunk cache key covers characters, tokenisation and configuration and hits are re-based symmetrically; LintGroup's tables are BTreeMaps and the only consumer of hash-seed order on the lint path sorts by a total key before truncating. Two genuine defects were found this way and repaired (cache key without tokenisation; tie order of suggestions).",
+        "note": "One iteration site (dictionary affix expansion) is UNDECIDED and listed in the evidence. Not decided: equality of concrete lint lists across histories/threads (needs execution).",
+    },
 }
 
 _TODO = "static rules for this property are specified in DESIGN.md section 3 but not yet implemented and self-tested; unclaimed until they are"
-NOT_APPLICABLE = {k: _TODO for k in ["C01", "C02", "C03", "C04", "C05", "C06", "C08", "C12", "C17", "C18"]}
+NOT_APPLICABLE = {k: _TODO for k in ["C01", "C02", "C03", "C04", "C06", "C08", "C12", "C17", "C18"]}
